@@ -189,9 +189,16 @@ class Gen:
             fn = self.rng.choice(UNARY_VEC)
             return FN[fn](base + 0)               # VectorExpression of UnaryOps
         A = np.array([[float(self.rng.choice([0, 1, 2, -1])) for _ in range(n)] for _ in range(n if size is not None else self.rng.randint(1, 3))])
+        if self.rng.random() < 0.4:
+            # the function form accepts vector EXPRESSIONS: a non-affine operand, or a product of a product
+            from optyx import matmul
+            Asq = np.array([[float(self.rng.choice([0, 1, 2, -1])) + (0.5 if i_ == j_ else 0.0) for j_ in range(n)] for i_ in range(n)])
+            inner = self.rng.choice([lambda: (base + 0) ** 2, lambda: base * 2 - 1, lambda: matmul(Asq, base), lambda: matmul(Asq, (base + 1) ** 2)])()
+            self.hit("vec:matmul-fn")
+            return matmul(A, inner)
         return A @ base                            # MatrixVectorProduct (size = rows)
 
-    RED_POLY = ["sum", "lincomb", "lincomb_e", "esum", "powsum_nat", "dot", "qf", "msum", "dot_hi", "siblings"]
+    RED_POLY = ["sum", "lincomb", "lincomb_e", "esum", "powsum_nat", "dot", "qf", "msum", "dot_hi", "siblings", "matvec_row"]
     RED_MORE = ["dot_overlap", "dot_e", "powsum", "unsum", "l2", "l1", "l2e", "l1e",
                 "qf_e", "msum_e", "frob", "trace", "vsumfn"]
 
@@ -236,6 +243,16 @@ class Gen:
             if form == "dot":
                 return a.dot(b) + ca @ b
             return (ca @ a) * (cb @ b)
+        if k == "matvec_row":
+            # ONE row of a matrix-vector product (plain, over a non-affine vector expression, or nested), as an expression of its own
+            from optyx import matmul
+            x = self.view()
+            n_ = x.size
+            A1 = np.array([[float(r.choice([0, 1, 2, -1])) + (0.5 if i_ == j_ else 0.0) for j_ in range(n_)] for i_ in range(n_)])
+            A2 = np.array([[float(r.choice([1, 2, -1, 0.5])) for _ in range(n_)] for _ in range(r.randint(1, 2))])
+            form = r.randrange(4)
+            w = [lambda: A2 @ x, lambda: matmul(A2, matmul(A1, x)), lambda: matmul(A2, (x + 0) ** 2), lambda: matmul(A2, matmul(A1, (x - 1) ** 2))][form]()
+            return w[r.randrange(w.size)]
         if k == "sum":
             return self.view().sum()
         if k == "lincomb":
@@ -424,6 +441,11 @@ class Gen:
                ("f+v", lambda f: f + leaf()), ("v-f", lambda f: leaf() - f), ("f*v", lambda f: f * leaf()), ("v*f", lambda f: leaf() * f),
                ("C-f", lambda f: Constant(c()) - f), ("C*f", lambda f: Constant(cn()) * f), ("f/C", lambda f: f / Constant(cn())),
                ("f/(C/c)", lambda f: f / (Constant(4.0) / 2)), ("f*(C+c)", lambda f: f * (Constant(cn()) + 1)),
+               # more constant-valued EXPRESSIONS as divisors / factors (all exact in binary64)
+               ("f/(C*c)", lambda f: f / (Constant(2.0) * 2)), ("f/(-C)", lambda f: f / (-Constant(4.0))), ("f/(C**2)", lambda f: f / (Constant(2.0) ** 2)),
+               ("f*(C/C)", lambda f: f * (Constant(3.0) / Constant(2.0))),
+               # the operand OBJECT used twice (a DAG, not a tree): whatever is remembered per node is asked for again
+               ("f*(1-f)", lambda f: f * (1 - f)), ("f-f*f", lambda f: f - f * f), ("(f+1)*f+f", lambda f: (f + 1) * f + f),
                # physical-constant magnitudes: tiny and huge literals are coefficients like any other
                ("tiny*f", lambda f: 1.380649e-23 * f), ("f*tiny", lambda f: f * 6.62607015e-34), ("huge*f", lambda f: 6.02214076e23 * f),
                ("f+tiny", lambda f: f + 1e-15), ("f-1", lambda f: f - (1.0 + 1e-13))]
@@ -444,7 +466,7 @@ class Gen:
 
                     ("f**-2", lambda f: f ** -2), ("v/f", lambda f: leaf() / f), ("exp", lambda f: FN["exp"](f)), ("sin", lambda f: FN["sin"](f)),
                     ("sqrt", lambda f: FN["sqrt"](f)), ("log", lambda f: FN["log"](f)), ("tanh", lambda f: FN["tanh"](f)),
-                    ("f**v", lambda f: f ** leaf()), ("c**f", lambda f: Constant(2.0) ** f)]
+                    ("f**v", lambda f: f ** leaf()), ("c**f", lambda f: Constant(2.0) ** f), ("f/(1+f*f)", lambda f: f / (1 + f * f))]
             if self.profile == "all":
                 ctx += [("abs", lambda f: FN["abs"](f))]
                 if self.pool.params:
